@@ -115,6 +115,11 @@ static void do_acts(ActC *acts, int n) {
         case 'F': assert_that(i, is_equal_to(-1)); break;
         case 'S': skip_test(); break;
         case 'A': atexit(late_failure); break;
+        case 'H': {          /* a helper process of the test's own (a server it talks to ...): it lives as long as the test's process does */
+            pid_t parent = getpid();
+            if (fork() == 0) { for (int i = 0; i < 3000 && getppid() == parent; i++) usleep(20000); _exit(0); }
+            break;
+        }
         case 'I': signal(SIGALRM, SIG_IGN); break;
         case 'Q': { void (*old)(int) = signal(SIGINT, SIG_DFL); assert_that(old == SIG_DFL, is_true); break; }      /* the test finds Ctrl-C in its default disposition */          /* code under test that uses the alarm signal itself and leaves it ignored */
         case 'X': assert_true_with_message(0, "%s", acts[i].text); break;           /* the text as an argument */
@@ -189,6 +194,7 @@ static int parse_acts(char *s, ActC **out) {
         else if (!strcmp(tok, "S")) a.kind = 'S';
         else if (!strcmp(tok, "AX")) a.kind = 'A';
         else if (!strcmp(tok, "IA")) a.kind = 'I';
+        else if (!strcmp(tok, "HP")) a.kind = 'H';
         else if (!strcmp(tok, "QI")) a.kind = 'Q';
         else if (tok[0] == 'X' || tok[0] == 'Y') { a.kind = tok[0]; a.text = unhex_text(tok + 1); }
         else if (!strcmp(tok, "MP")) a.kind = 'p';
